@@ -16,15 +16,15 @@ import (
 )
 
 type Site struct {
-	Instr    ssa.Instruction
-	Fn       *ssa.Function
-	Kind     string // nil-deref | index | slice | invoke | assert | mapupdate | div | makeslice | panic
-	What     string // operand description
-	Safe     int    // contexts in which the site was proved safe
-	Unsafe   int
-	How      map[string]bool
-	Witness  string // a state in which the site is not proved safe
-	Definite bool   // some state makes the failure definite (e.g. known-nil pointer)
+	Instr      ssa.Instruction
+	Fn         *ssa.Function
+	Kind       string // nil-deref | index | slice | invoke | assert | mapupdate | div | makeslice | panic
+	What       string // operand description
+	Safe       int    // contexts in which the site was proved safe
+	Unsafe     int
+	How        map[string]bool
+	Witness    string // a state in which the site is not proved safe
+	Definite   bool   // some state makes the failure definite (e.g. known-nil pointer)
 	defWitness bool
 }
 
